@@ -8,6 +8,7 @@ import (
 	"time"
 
 	"github.com/ipfs/boxo/ipns"
+	"github.com/ipfs/boxo/path"
 	ic "github.com/libp2p/go-libp2p/core/crypto"
 	"github.com/libp2p/go-libp2p/core/peer"
 	"pgregory.net/rapid"
@@ -18,13 +19,85 @@ func TestMain(m *testing.M) { kit.Main(m) }
 
 // Case: one record specification; if Bad is set, that (documented-invalid) metadata entry
 // is added and creation must fail.
+//
+// Zone: the expiry is an instant, but the time.Time handed to NewRecord also carries a
+// Location (real callers pass time.Now().Add(lifetime), i.e. the process' local zone).
+// nil = time.UTC; otherwise the same instant is expressed in time.FixedZone("verif", *Zone)
+// (seconds east of UTC). The instant, and therefore every expected output, is unchanged.
 type Case struct {
-	Rec kit.IpnsRecSpec `json:"rec"`
-	Bad *kit.IpnsMeta   `json:"bad,omitempty"`
+	Rec  kit.IpnsRecSpec `json:"rec"`
+	Bad  *kit.IpnsMeta   `json:"bad,omitempty"`
+	Zone *int            `json:"zone,omitempty"`
+}
+
+// zoneOffsets: offsets of real zones (whole hours, half/quarter hours, the extremes
+// -12:00/+14:00), a non-UTC location with offset 0, and historical local-mean-time offsets
+// with seconds (Amsterdam +0:19:32, Monrovia -0:44:30).
+var zoneOffsets = []int{2 * 3600, -5 * 3600, 3600, -8 * 3600, 5*3600 + 1800, -(3*3600 + 1800), 5*3600 + 2700, 14 * 3600, -12 * 3600, 0, 19*60 + 32, -(44*60 + 30)}
+
+func genZone(t *rapid.T) *int {
+	var off int
+	switch rapid.IntRange(0, 5).Draw(t, "zoneclass") {
+	case 0, 1, 2:
+		return nil // time.UTC
+	case 3, 4:
+		off = rapid.SampledFrom(zoneOffsets).Draw(t, "zoneoff")
+	default:
+		off = rapid.IntRange(-18*3600, 18*3600).Draw(t, "zoneoff")
+	}
+	return &off
+}
+
+// build is kit.IpnsRecSpec.Build with the expiry expressed in the case's zone.
+func build(c Case, spec kit.IpnsRecSpec, now time.Time) (*kit.IpnsBuilt, error) {
+	sk, err := kit.IpnsKey(spec.Key)
+	if err != nil {
+		return nil, fmt.Errorf("%w: key: %v", kit.ErrIpnsHarness, err)
+	}
+	name, err := kit.IpnsNameOf(sk)
+	if err != nil {
+		return nil, fmt.Errorf("%w: name: %v", kit.ErrIpnsHarness, err)
+	}
+	p, err := path.NewPath(spec.Value)
+	if err != nil {
+		return nil, fmt.Errorf("%w: value %q is not a path: %v", kit.ErrIpnsHarness, spec.Value, err)
+	}
+	eol := spec.EOL(now) // UTC
+	if c.Zone != nil {
+		z := eol.In(time.FixedZone("verif", *c.Zone))
+		if !z.Equal(eol) {
+			return nil, fmt.Errorf("%w: zone conversion changed the instant", kit.ErrIpnsHarness)
+		}
+		eol = z
+	}
+	rec, err := ipns.NewRecord(sk, p, spec.Seq, eol, time.Duration(spec.TTL), spec.Options()...)
+	if err != nil {
+		return nil, err
+	}
+	b, err := ipns.MarshalRecord(rec)
+	if err != nil {
+		return nil, fmt.Errorf("MarshalRecord: %w", err)
+	}
+	return &kit.IpnsBuilt{Spec: spec, Key: sk, Name: name, Path: p, EOL: eol, Rec: rec, Bytes: b}, nil
+}
+
+func zoneClass(z *int) string {
+	switch {
+	case z == nil:
+		return "zone:utc"
+	case *z == 0:
+		return "zone:fixed0"
+	case *z%60 != 0:
+		return "zone:seconds"
+	case *z > 0:
+		return "zone:east"
+	}
+	return "zone:west"
 }
 
 func gen(t *rapid.T) Case {
 	c := Case{Rec: kit.IpnsRecSpecs().Draw(t, "rec")}
+	c.Zone = genZone(t)
 	if rapid.IntRange(0, 5).Draw(t, "bad") == 0 {
 		b := kit.IpnsMetaInvalid(t)
 		c.Bad = &b
@@ -49,7 +122,7 @@ func seqClass(s uint64) string {
 func run(c Case) kit.Result {
 	now := time.Now()
 	spec := c.Rec
-	cls := []string{"key:" + spec.Key.Type, fmt.Sprintf("v1:%d", spec.V1), fmt.Sprintf("embed:%d", spec.Embed), seqClass(spec.Seq)}
+	cls := []string{"key:" + spec.Key.Type, fmt.Sprintf("v1:%d", spec.V1), fmt.Sprintf("embed:%d", spec.Embed), seqClass(spec.Seq), zoneClass(c.Zone)}
 
 	if c.Bad != nil {
 		if c.Bad.Valid() {
@@ -63,7 +136,7 @@ func run(c Case) kit.Result {
 			}
 		}
 		spec.Meta = append(meta, *c.Bad)
-		_, err := spec.Build(now)
+		_, err := build(c, spec, now)
 		if errors.Is(err, kit.ErrIpnsHarness) {
 			return kit.Fail("%v", err)
 		}
@@ -82,7 +155,7 @@ func run(c Case) kit.Result {
 	if !spec.MetaValid() {
 		return kit.Fail("harness: generated metadata is not valid")
 	}
-	b, err := spec.Build(now)
+	b, err := build(c, spec, now)
 	if err != nil {
 		return kit.Fail("NewRecord failed on valid inputs: %v", err)
 	}
@@ -196,7 +269,7 @@ func run(c Case) kit.Result {
 
 var spec = kit.Spec[Case]{
 	Prop: "C26", Name: "main",
-	Rule:  "one generated (key type, value path, sequence over uint64 classes, future EOL with nanoseconds up to year 9999, TTL class, metadata map, V1-compat/embed options): NewRecord -> accessors -> Marshal -> Unmarshal -> accessors -> Validate family; or one documented-invalid metadata entry added -> NewRecord must fail; non-trivial = sequence >= 2^63, metadata non-empty, or invalid-metadata case",
+	Rule:  "one generated (key type, value path, sequence over uint64 classes, future EOL with nanoseconds up to year 9999 given as a time.Time in UTC or in a fixed non-UTC zone (same instant), TTL class, metadata map, V1-compat/embed options): NewRecord -> accessors -> Marshal -> Unmarshal -> accessors -> Validate family; or one documented-invalid metadata entry added -> NewRecord must fail; non-trivial = sequence >= 2^63, metadata non-empty, or invalid-metadata case",
 	Quick: 4000, Thorough: 20000,
 	Gen: gen, Run: run,
 }
